@@ -32,9 +32,19 @@ type lcfg struct {
 	typ   string // model | collection
 	def   bool
 	index bool // resbadger model with an index set
+	typed bool // resbadger model with a struct Type (declares only the property "a")
+}
+
+// typedModel is the Type of the typed configuration: Value() and the index callbacks see values of this
+// type; what is stored and served stays the full JSON the events produced.
+type typedModel struct {
+	A interface{} `json:"a,omitempty"`
 }
 
 func (c lcfg) String() string {
+	if c.typed {
+		return fmt.Sprintf("%s/%s/default=%v/index=%v/typed", c.pkg, c.typ, c.def, c.index)
+	}
 	return fmt.Sprintf("%s/%s/default=%v/index=%v", c.pkg, c.typ, c.def, c.index)
 }
 
@@ -147,10 +157,18 @@ func (w *world) open() error {
 			if w.defVal != nil {
 				m = m.WithDefault(w.defVal)
 			}
+			if w.cfg.typed {
+				m = m.WithType(typedModel{})
+			}
 			if w.cfg.index {
 				m = m.WithIndexSet(&resbadger.IndexSet{Indexes: []resbadger.Index{{Name: "ia", Key: func(v interface{}) []byte {
-					if mm, ok := v.(map[string]interface{}); ok {
-						return []byte(fmt.Sprint(mm["a"]))
+					switch x := v.(type) {
+					case map[string]interface{}:
+						return []byte(fmt.Sprint(x["a"]))
+					case typedModel:
+						return []byte(fmt.Sprint(x.A))
+					case *typedModel:
+						return []byte(fmt.Sprint(x.A))
 					}
 					return nil
 				}}}})
@@ -386,7 +404,8 @@ func (w *world) perform(e rec, do func(r res.Resource)) (rec, error) {
 			e["old"] = old
 		}
 		if w.lastEv.Name == "delete" && w.lastEv.Data != nil {
-			if rm, ok := w.lastEv.Data.(json.RawMessage); !ok || len(rm) > 0 {
+			if rm, ok := w.lastEv.Data.(json.RawMessage); (!ok || len(rm) > 0) && !w.cfg.typed {
+				// (with a struct Type the listener gets a value of that type, a projection of what was stored)
 				e["hasdata"] = true
 				e["deleted"] = absResource(w.cfg.typ, w.lastEv.Data)
 			}
@@ -401,12 +420,18 @@ func (w *world) perform(e rec, do func(r res.Resource)) (rec, error) {
 		}
 	} else {
 		e["value"] = absResource(w.cfg.typ, value)
+		if w.cfg.typed {
+			e["value"] = nil // Value() is of the declared type (a projection): only get is compared, see below
+		}
 	}
 	served, err := w.get()
 	if err != nil {
 		return nil, err
 	}
 	e["served"] = served
+	if e["value"] == nil {
+		e["value"] = served
+	}
 	return e, nil
 }
 
@@ -540,7 +565,8 @@ func Run(c *core.Ctx) {
 			}
 		}
 	}
-	cfgs = append(cfgs, lcfg{pkg: "resbadger", typ: "model", index: true}, lcfg{pkg: "resbadger", typ: "model", def: true, index: true})
+	cfgs = append(cfgs, lcfg{pkg: "resbadger", typ: "model", index: true}, lcfg{pkg: "resbadger", typ: "model", def: true, index: true},
+		lcfg{pkg: "resbadger", typ: "model", index: true, typed: true}, lcfg{pkg: "resbadger", typ: "model", typed: true})
 	var recs []interface{}
 	for ci, cfg := range cfgs {
 		for h := 0; h < c.Pick(6, 60); h++ {
